@@ -1,3 +1,3 @@
 From Coq Require Import ExtrOcamlBasic.
-From CppUVerif Require Import lib.CInt lib.Dbl C09_Model C09_Access C09_Reuse C09_Edge.
-Extraction "c09_model.ml" C09_Model.run C09_Model.spec C09_Model.valid C09_Model.sc_run C09_Model.sc_spec C09_Model.sc_valid C09_Access.x_run C09_Access.x_spec C09_Access.x_valid C09_Reuse.z_run C09_Reuse.z_spec C09_Reuse.z_valid C09_Edge.w_run C09_Edge.w_spec C09_Edge.w_valid Dbl.dbl_of_bits.
+From CppUVerif Require Import lib.CInt lib.Dbl C09_Model C09_Access C09_Reuse C09_Edge C09_Stale.
+Extraction "c09_model.ml" C09_Model.run C09_Model.spec C09_Model.valid C09_Model.sc_run C09_Model.sc_spec C09_Model.sc_valid C09_Access.x_run C09_Access.x_spec C09_Access.x_valid C09_Reuse.z_run C09_Reuse.z_spec C09_Reuse.z_valid C09_Edge.w_run C09_Edge.w_spec C09_Edge.w_valid C09_Stale.v_run C09_Stale.v_spec C09_Stale.v_valid Dbl.dbl_of_bits.
